@@ -9,7 +9,9 @@ BOUND = ("networks with <= 6(7) variables (exhaustive 1-variable, sampled 2-vari
          "<= 6 (quick) / <= 10 (thorough) calls interleaving candidate/seed/set queries on arbitrary (mostly unexpanded) nodes with every way of giving a node "
          "successors (single-node expansion, bfs, dfs, minimal-space with/without skip_ignored, attractor-seed, target, block with/without source shortcuts, "
          "scc and build at any position, skip_to_minimal, skip_remaining) and with reclaim_node_data / pickle round trips; after EVERY call the cached candidates, seeds and "
-         "sets of EVERY node are compared with the brute-force attractors owned by the node under its current successors")
+         "sets of EVERY node are compared with the brute-force attractors owned by the node under its current successors; every second seeded case runs under a "
+         "NON-default configuration (small motif / candidate limits, thresholds, budgets) and the shape family (k independent switches, deep diagrams, block-structured "
+         "motif-avoidant networks) combines such configurations with pickle round trips and reclaim_node_data between queries and expansions")
 RULE = "non-trivial = at some moment a node that had cached attractor data while unexpanded was given successors"
 CASE_TIMEOUT = 60.0
 
@@ -29,7 +31,34 @@ D4_SHAPES = [
 ]
 
 
+ROUND_TRIPS = [
+    [["seeds", 0, False], ["pickle"], ["succ", 0], ["seeds", 0, False]],
+    [["cands", 0, True, True], ["reclaim"], ["pickle"], ["bfs", None, 1, None], ["seeds", 0, False], ["seeds", 1, False]],
+    [["succ", 0], ["seeds", 1, False], ["reclaim"], ["cands", 1, True, True], ["pickle"], ["succ", 1], ["cands", 1, False, False]],
+    [["bfs", None, 1, None], ["sets", 2], ["pickle"], ["reclaim"], ["skip_remaining"], ["seeds", 2, False]],
+    [["seeds", 0, False], ["reclaim"], ["block", True, None, True, False], ["pickle"], ["seeds", 0, False]],
+    [["cands", 0, False, True], ["pickle"], ["scc", True], ["reclaim"], ["sets", 0]],
+    [["succ", 0], ["cands", 1, True, False], ["cands", 2, True, True], ["pickle"], ["min", None, None, True], ["reclaim"], ["seeds", 1, False]],
+]
+
+
+def shape_cases(seed, tier):
+    nets = list(families.MANY_MOTIFS.items()) + list(families.deep_nets(seed, tier)) + list(families.block_nets(seed, tier))
+    for k, (name, bnet) in enumerate(nets):
+        names = families.variables(bnet)
+        rng = random.Random(f"{seed}-{name}-c14-cfg")
+        fixed = k < len(families.MANY_MOTIFS) + len(families.DEEP)
+        for h in (ROUND_TRIPS if fixed else [ROUND_TRIPS[k % len(ROUND_TRIPS)]]):
+            yield {"net": name, "bnet": bnet, "config": families.config_variant(rng), "history": h}
+        hist = families.random_history(rng.randrange(1 << 30), names, rng.randint(3, 6), OPS + families.HOUSE_OPS * 3)
+        yield {"net": name, "bnet": bnet, "config": families.config_variant(rng), "history": hist}
+
+
 def cases(seed, tier):
+    yield from families.interleave((shape_cases(seed, tier), 1), (general_cases(seed, tier), 4))
+
+
+def general_cases(seed, tier):
     maxlen = 6 if tier == "quick" else 10
     first = True
     for name, bnet in families.network_family(seed, tier, hand_max_vars=9):
@@ -44,14 +73,14 @@ def cases(seed, tier):
             if rng.random() < 0.2:
                 hist.append(rng.choice([["scc", True], ["scc", False], ["block", True, None, True, False], ["build"]]))
             hist += families.random_history(rng.randrange(1 << 30), names, rng.randint(2, maxlen), OPS)
-            yield {"net": name, "bnet": bnet, "history": hist}
+            yield {"net": name, "bnet": bnet, "config": families.config_variant(rng) if rnd % 2 else {}, "history": hist}
 
 
 def check_with_info(case):
     net = oracle.Net.from_bnet(case["bnet"])
     info = net_info(net)
     info["invalidations"] = 0
-    sd = make_sd(case["bnet"])
+    sd = make_sd(case["bnet"], case.get("config"))
     out = []
     for k, step in enumerate(case["history"]):
         had = {i for i in sd.node_ids() if not sd.node_data(i)["expanded"] and any(sd.node_data(i)[f] is not None for f in
